@@ -452,6 +452,10 @@ func (h *handler) oneCall(ci *connInfo, cb string) {
 		h.doCall(ci, "close", 0, nil, h.rnd.Chance(50))
 	case k < 96+h.cfg.pElClose:
 		h.doCall(ci, "elclose", 0, nil, false)
+		if h.cfg.client && h.cfg.proto == "udp" && h.rnd.Chance(80) {
+			// the recorded finding: AsyncWrite on a closed connected-UDP connection sends at once
+			h.doCall(ci, "asyncwrite", 0, h.payload(3), true)
+		}
 	default:
 		h.doCall(ci, "readfrom", 0, h.payload(h.rnd.Pick([]int{0, 1, 100, 5000, wsz})), false)
 		if h.rnd.Chance(85) {
@@ -498,6 +502,15 @@ func (h *handler) hl(ci *connInfo, args ...string) tr.Line {
 func (h *handler) doCall(ci *connInfo, call string, n int, data []byte, cb bool) {
 	c := ci.c
 	rec := h.rec
+	rec.mu.Lock()
+	prevCall := rec.curCall
+	rec.curCall = call
+	rec.mu.Unlock()
+	defer func() {
+		rec.mu.Lock()
+		rec.curCall = prevCall
+		rec.mu.Unlock()
+	}()
 	switch call {
 	case "read":
 		h.op(ci, h.hl(ci, "read", tr.I(n)))
@@ -648,7 +661,7 @@ func (h *handler) acb(kind string, ci *connInfo, want bool, data []byte) gnet.As
 		return nil
 	}
 	fired := false
-	if (kind == "write" || kind == "writev") && data != nil {
+	if (kind == "write" || kind == "writev") && data != nil && !ci.udp && h.cfg.proto != "udp" {
 		h.mu.Lock()
 		ci.asyncIssued = append(ci.asyncIssued, data)
 		h.mu.Unlock()
@@ -674,7 +687,7 @@ func (h *handler) acb(kind string, ci *connInfo, want bool, data []byte) gnet.As
 		if ci.mcid < 0 && c != nil {
 			cid = -2 // not a modelled connection: the line is dropped by h.obs
 		}
-		if (kind == "write" || kind == "writev") && data != nil {
+		if (kind == "write" || kind == "writev") && data != nil && !ci.udp && h.cfg.proto != "udp" {
 			// asynchronous writes issued by one goroutine are carried out in issue order (C02/C03)
 			h.mu.Lock()
 			if ci.asyncDone < len(ci.asyncIssued) && !bytes.Equal(ci.asyncIssued[ci.asyncDone], data) {
